@@ -152,6 +152,31 @@ FAMILIES["lexargs"] = {
     ],
 }
 
+FIELDPUB = ("R1", r"(?m)^    ([a-z_]+): ", r"    pub \1: ", "field visibility")
+FAMILIES["frames"] = {
+    "anchor": "src/run.rs struct Runtime + Default, struct StackFrame, Uiua::{call, call_with_span, exec_with_span, exec_with_frame_span, span_index, with_fill, with_unfill, without_fill, stack_height}, error-reset block of Uiua::run_asm",
+    "bound": "stack length <= 3, nesting depth <= 3, fill / call stacks of length <= 2 at entry (concrete sizes, symbolic contents and failure points)",
+    "header": "use crate::shim::*;\n",
+    "rewrites": (PUBCRATE, ("R4", r"(?m)^\s*#\[(?:track_caller|inline\(always\)|inline)\]\n", "", "attribute dropped")),
+    "dropped": "R3 error text (format! shim macro); everything else verbatim (the `#[cfg(debug_assertions)] panic!` of exec_with_frame_span is compiled in, as in the crate's own test builds)",
+    "groups": [
+        {"prefix": "#[derive(Debug, Clone, Default)]\n", "items": [
+            {"kind": "block", "name": "struct StackFrame", "file": "src/run.rs", "header": r"^pub\(crate\) struct StackFrame \{", "rewrites": (FIELDPUB,)}]},
+        {"prefix": "#[derive(Clone)]\n", "items": [
+            {"kind": "block", "name": "struct Runtime", "file": "src/run.rs", "header": r"^pub\(crate\) struct Runtime \{", "rewrites": (FIELDPUB,)}]},
+        {"items": [
+            {"kind": "block", "name": "impl Default for Runtime", "file": "src/run.rs", "header": r"^impl Default for Runtime \{"}]},
+        {"wrap": "impl Uiua", "items": [
+            {"kind": "fn", "file": "src/run.rs", "impl": UIUA, "fn": f, "rewrites": (("R1", r"^fn ", "pub fn ", "visibility widened"),)} for f in
+            ["call", "call_with_span", "exec_with_span", "exec_with_frame_span", "span_index", "with_fill", "with_unfill", "without_fill", "stack_height"]
+        ] + [
+            {"kind": "range_in_fn", "name": "error-reset block of Uiua::run_asm", "file": "src/run.rs", "impl": UIUA, "fn": "run_asm",
+             "start": r"^[ \t]*if res\.is_err\(\) \{", "brace_block": True,
+             "sig": "pub fn reset_after_run(&mut self, res: &UiuaResult)"},
+        ]},
+    ],
+}
+
 ARMSIG_P = "pub fn {n}(prim: &Prim, purity: Purity) -> bool"
 ARMSIG_M = "pub fn {n}(prim: &Prim, args: &[SigNode], purity: Purity, asm: &Assembly, visited: &mut Visited) -> bool"
 FAMILIES["purity"] = {
